@@ -244,6 +244,15 @@ def check_C10(ctx):
         ctx.count('unlimited-cases')
         if want is not None and out != [want]:
             ctx.oracle_fail('unlimited-form-wrong', cmd, {'answer': out, 'expected': want})
+    # the budget is what bounds the search in time: real runs of the unguarded binary with budgets 0, 1 and small ones
+    # (a budget of exactly 0 is a legitimate outcome of the clamp; only `go infinite` / depth-limited searches are unbounded)
+    for form, budget in [('go wtime 1500 btime 1500 winc 100 binc 100', 0), ('go wtime 1 btime 1', 0), ('go movetime 0', 0),
+                         ('go wtime 2 btime 2', 0), ('go movetime 150', 150), ('go wtime 4000 btime 4000 movestogo 10', 300)]:
+        t0 = time.time()
+        out, rc = timed_go(['position startpos moves e2e4 e7e5', form], budget / 1000.0 + 2.0)
+        ctx.count('realtime-budget-runs'); ctx.evaluations += 1
+        if out is None:
+            ctx.oracle_fail('time-limited-search-unbounded', {'script': ['position startpos moves e2e4 e7e5', form]}, {'budget_ms': budget, 'waited_s': round(time.time() - t0, 2)})
     # malformed stream (error handling is compared, not judged)
     for cmd in ['budget w ; wtime', 'budget w ; wtime abc', 'budget w ; depth', 'budget w ; depth x', 'budget w ; movestogo 0 wtime 100',
                 'budget w ; foo bar', 'budget w ; wtime +5 btime 7', 'budget w ; wtime 99999999999999999999', 'budget w ; ponder wtime 4000 btime 4000 bogus']:
@@ -1129,7 +1138,7 @@ def run_property(prop, tier, seed, replay=None):
                 checker_cmds.append(f'lake env lean .cache/audit_{prop}.lean  (#print axioms on {len(thms)} theorems)')
         except BuildError as e:
             proof_failures.append({'stage': e.stage, 'detail': e.detail[-1500:]})
-    if prop in ('C13', 'C14', 'C18', 'C17', 'C03', 'C09'):
+    if prop in ('C13', 'C14', 'C18', 'C17', 'C03', 'C09', 'C05', 'C10', 'C07'):
         with Lock():
             try:
                 cargo_build(hooks=False)
@@ -1380,6 +1389,30 @@ def check_C03(ctx):
     ctx.sample({'input': f'search {pos_args(*roots[0][:2])} ; depth=3 pollmask=31 stop=2', 'engine': run_search(ctx, pos_args(*roots[0][:2]), 'depth=3 pollmask=31 stop=2', model=False).lines[-9:]})
 
 
+def timed_go(lines, limit):
+    """send the lines to the unguarded binary and wait for `bestmove` at most `limit` seconds (stdin stays open);
+    returns (lines, seconds) or (None, None) when no `bestmove` came in time"""
+    p = subprocess.Popen([PLAIN_BIN], stdin=subprocess.PIPE, stdout=subprocess.PIPE, stderr=subprocess.DEVNULL, text=True, bufsize=1, env=env_offline())
+    got = []
+    done = threading.Event()
+    def rd():
+        for l in p.stdout:
+            got.append(l.rstrip('\n'))
+            if l.startswith('bestmove'): done.set()
+    th = threading.Thread(target=rd, daemon=True); th.start()
+    t0 = time.time()
+    for l in lines:
+        p.stdin.write(l + '\n'); p.stdin.flush()
+    ok = done.wait(limit)
+    dt = time.time() - t0
+    try:
+        p.stdin.write('quit\n'); p.stdin.flush(); p.stdin.close()
+    except Exception: pass
+    try: p.wait(timeout=3)
+    except Exception: p.kill()
+    return (got, dt) if ok else (None, None)
+
+
 def uci_session(lines_with_delays, timeout=20, binary=None, env=None):
     """drive the unguarded binary through pipes; items are strings (lines) or numbers (seconds to sleep).
     returns (stdout lines, returncode or None if it had to be killed)"""
@@ -1529,6 +1562,13 @@ def check_C06(ctx):
         ctx.count('special-roots')
         if len(so.evs) < 60000:
             audit_trace(ctx, f'search fen {fen} ; depth=2 trace=full', so, {ident}, cache, abs_cache)
+    # null moves at nodes that carry an en-passant square: depth-4 traces from positions with many double pushes ahead
+    for fen in ['4k3/pppppppp/8/8/8/8/PPPPPPPP/4K3 w - - 0 1', '4k3/pppppppp/8/8/8/8/PPPPPPPP/4K3 b - - 0 1', '6k1/5ppp/8/2r1r3/4p3/7P/3P1PPK/8 w - - 0 1',
+                'r3k2r/pp1p1ppp/8/2p1p3/2P1P3/8/PP1P1PPP/R3K2R w KQkq - 0 1'][: (3 if ctx.quick else 4)]:
+        so = run_search(ctx, 'fen ' + fen, 'depth=4 trace=full')
+        ctx.count('null-move-with-ep-roots')
+        if len(so.evs) < 200000:
+            audit_trace(ctx, f'search fen {fen} ; depth=4 trace=full', so, {' '.join(fen.split()[:4])}, cache, abs_cache)
     # deep lines: the ply limit (sparse endgames reach ply 63 through check extensions and depth 64)
     for fen, d in [('4k3/8/8/8/8/8/8/4K3 w - - 0 1', 64), ('8/8/8/4k3/8/4K3/4P3/8 w - - 0 1', 30), ('4k3/8/8/8/8/8/8/4K3 w - - 0 1', -1)]:
         so = run_search(ctx, 'fen ' + fen, f'depth={d} trace=digest', model=False)
@@ -1592,6 +1632,7 @@ def long_shuffle_games(ctx):
 
 def check_C07(ctx):
     cache, abs_cache = {}, {}
+    session_corr(ctx, 24 if ctx.quick else 300)
     games = [tuple(l.split(' ; ')) for l in load_regressions('C07')]
     games = [(b, m.split()) for b, m in games] + long_shuffle_games(ctx) + shuffle_games(ctx, 36 if ctx.quick else 500)
     for base, moves in games:
@@ -1659,6 +1700,14 @@ def check_C09(ctx):
         for opts in [f'depth={d} maxtime=0 trace=full', f'depth={d} pollmask={mask} trace=full inject=2:ucinewgame']:
             so = run_search(ctx, pos, opts)
             judge_stop(ctx, f'search {pos} ; {opts}', so, first_legal[0] if first_legal else None)
+        # a deadline that is set but far away: input is still read at every poll (stop, isready) exactly as without one
+        for opts in [f'depth={d} maxtime=10000000 pollmask={mask} trace=full stop={min(2, max(npolls - 1, 0))}',
+                     f'depth={d} maxtime=10000000 pollmask={mask} trace=full inject=0:isready inject=1:isready inject=2:stop']:
+            so = run_search(ctx, pos, opts)
+            ctx.count('far-deadline-with-input')
+            judge_stop(ctx, f'search {pos} ; {opts}', so, first_legal[0] if first_legal else None)
+            if npolls > 3 and 'stopping=1' not in so.r.get('end', ''):
+                ctx.oracle_fail('stop-ignored-while-a-deadline-is-set', f'search {pos} ; {opts}', {'end': so.r.get('end'), 'polls': len(so.r.get('polls', []))})
         # an expired deadline must be seen at the very next poll even when input lines are queued (they stay queued)
         for opts in [f'depth={d} maxtime=0 pollmask={mask} trace=full inject=0:isready inject=0:isready inject=1:isready inject=2:isready',
                      f'depth={d} maxtime=0 pollmask={mask} trace=full inject=0:isready inject=0:d inject=1:stop']:
@@ -2392,15 +2441,30 @@ def session_script(ctx, rng, games):
     n = rng.choice([3, 6, 10, 16])
     use_bad = rng.random() < 0.25
     lines = [rng.choice(legal + (malformed if use_bad else []))() for _ in range(n)]
-    return lines + ['quit'], not use_bad
+    if rng.random() < 0.4:
+        # a take-back: the same game given again two plies shorter - the positions of the longer game are no longer part
+        # of the history, and a search from the shorter one walks straight into them. No search before it (cold table),
+        # so the output must be what a fresh process prints for the shorter game alone.
+        base, moves, fens = rng.choice([g for g in games if len(g[1]) >= 4] or games)
+        k = rng.randrange(2, len(moves) + 1) if len(moves) >= 2 else 0
+        head = 'position startpos' if base == START_FEN else 'position fen ' + base
+        if k >= 2:
+            pre = [l for l in lines if l.split(' ')[0].lower() not in ('go',)][:4] if not use_bad else []
+            tb = [head + (' moves ' + ' '.join(moves[:k - 2]) if k > 2 else ''), f'go depth {rng.choice([2, 3, 4])}']
+            return pre + [head + ' moves ' + ' '.join(moves[:k])] + tb + ['quit'], (True, tb)
+    return lines + ['quit'], (not use_bad, None)
 
 
 def session_corr(ctx, n):
     """the command loop: the unguarded binary (black box, one line at a time) against `Model/Uci` (`session` request)"""
     rng = random.Random(ctx.seed * 7919 + 13)
     games = ctx.gen.games(40, maxlen=30)
+    # games from the start position too (`position startpos …` is a separate branch of `parse_position`)
+    for ms in ['e2e4 e7e5 g1f3 b8c6 f1b5 a7a6', 'd2d4 d7d5 c2c4 e7e6 b1c3 g8f6', 'g1f3 g8f6 c2c4 g7g6 b1c3 f8g7', 'e2e4 c7c5 g1f3 d7d6 d2d4 c5d4 f3d4 g8f6',
+               'g1f3 g8f6 f3g1 f6g8 g1f3 g8f6', 'b1c3 b8c6 c3b1 c6b8']:
+        games += [(START_FEN, ms.split(), None)] * 3
     for i in range(n):
-        lines, legal_script = session_script(ctx, rng, games)
+        lines, (legal_script, takeback) = session_script(ctx, rng, games)
         out, rc = bb_session(lines, model=ctx.model)
         got = [re.sub(r' time \d+', ' time 0', l) for l in out]
         m = ctx.model.ask('session ' + ' | '.join(lines))
@@ -2408,6 +2472,15 @@ def session_corr(ctx, n):
         ctx.corr_cmds['session'] = ctx.corr_cmds.get('session', 0) + 1
         status = m[-1] if m else ''
         want = m[:-1]
+        if takeback and legal_script:
+            # after `ucinewgame` and the shorter `position`, the search must print what a fresh process prints for it
+            fresh, rc2 = bb_session(takeback + ['quit'], model=ctx.model)
+            fresh = [re.sub(r' time \d+', ' time 0', l) for l in fresh if l.startswith('info ') or l.startswith('bestmove')]
+            tail = [l for l in got if l.startswith('info ') or l.startswith('bestmove')][-len(fresh):] if fresh else []
+            ctx.count('take-back-sessions')
+            if fresh and tail != fresh:
+                ctx.oracle_fail('search-after-newgame-and-position-differs-from-fresh-process', {'script': lines, 'fresh_script': takeback},
+                                {'session': tail[-3:], 'fresh': fresh[-3:]})
         if 'unmodelled=1' in status:
             ctx.count('command-loop-unmodelled'); continue
         died = 'panicked=1' in status
@@ -2468,6 +2541,17 @@ def check_C13(ctx):
             if so.panic or so.n_bestmove != 1 or so.readyok != exp_ready or so.r.get('deferred', '').strip() != ' '.join(exp_def).strip() or (stopped and so.r.get('pending', '').strip() != exp_pending.strip()):
                 ctx.oracle_fail('input-line-lost-or-misanswered', f'search {pos} ; {opts}', {'readyok': so.readyok, 'expected_readyok': exp_ready, 'deferred': so.r.get('deferred'), 'expected_deferred': exp_def,
                                 'pending': so.r.get('pending'), 'expected_pending': exp_pending, 'bestmoves': so.n_bestmove})
+    # end of input right after a last line that has no newline: the line is still handled and the process ends
+    for raw, must in [('uci\nisready', ['uciok', 'readyok']), ('isready\nposition startpos\ngo depth 2', ['readyok', 'bestmove']),
+                      ('position startpos\ngo infinite', ['bestmove']), ('isready', ['readyok']), ('', [])]:
+        try:
+            r = subprocess.run([PLAIN_BIN], input=raw, capture_output=True, text=True, timeout=6, env=env_offline())
+            outl, rc = r.stdout.split('\n'), r.returncode
+        except subprocess.TimeoutExpired:
+            outl, rc = [], None
+        ctx.count('eof-without-newline-runs'); ctx.evaluations += 1
+        if rc != 0 or any(not any(l.startswith(m) for l in outl) for m in must):
+            ctx.oracle_fail('end-of-input-not-handled', {'stdin': raw, 'then': 'EOF'}, {'rc': rc, 'stdout': outl[-4:]})
     # real processes, real time
     positions = ['startpos', 'startpos moves e2e4 e7e5', 'fen r3k2r/p1ppqpb1/bn2pnp1/3PN3/1p2P3/2N2Q1p/PPPBBPPP/R3K2R w KQkq - 0 1', 'fen 8/8/8/4k3/8/8/8/R3K3 w - - 0 1',
                  'fen 7k/5Q2/6K1/8/8/8/8/8 b - - 0 1', 'fen 4k3/8/8/8/8/8/8/R3K3 w - - 100 80', 'fen rnb1kbnr/pppp1ppp/8/4p3/6Pq/5P2/PPPPP2P/RNBQKBNR w KQkq - 1 3']
